@@ -347,6 +347,7 @@ func (stmt *InjectorFieldAccessStmt) HasAsync() bool {
 type Injector struct {
 	Return        *InjectorReturn
 	Name          string
+	ctxName       string // identifier of the context inside the generated function (set when goroutines are generated)
 	Params        []*InjectorParam
 	Args          []*InjectorArgument
 	Vars          []*InjectorParam
